@@ -2,10 +2,10 @@
 package c01
 
 import (
-	"testing/iotest"
 	"bytes"
 	"compress/gzip"
 	"fmt"
+	"github.com/google/pprof/verif/internal/sess"
 	"io"
 	"math"
 	"math/rand"
@@ -14,6 +14,8 @@ import (
 	"sort"
 	"strings"
 	"sync"
+	"testing/iotest"
+	"time"
 
 	"github.com/google/pprof/profile"
 	"github.com/google/pprof/verif/internal/drv"
@@ -483,6 +485,36 @@ func runDriver(c *harness.Ctx) harness.Result {
 		res.Detail = "pprof -proto output does not carry the samples of its input (per frames+labels):\n" + d
 		return res
 	}
+	// the same save from the interactive shell, after an earlier save under -divide_by: the later
+	// one (default options again) must still carry the input's values
+	if c.Index%10 == 0 {
+		var ib bytes.Buffer
+		p.WriteUncompressed(&ib)
+		sr, err := sess.Run(sess.Spec{Profile: ib.Bytes(), Mode: "interactive", Lines: []string{"divide_by=2", "proto > a.pb.gz", "divide_by=1", "proto > b.pb.gz"}, Dir: c.Tmp + "/s"}, 2*time.Minute)
+		if err == nil && sr.Panic == "" && len(sr.Segments) >= 4 {
+			for fn, body := range sr.Segments[3].Files {
+				if !strings.HasSuffix(fn, "b.pb.gz") {
+					continue
+				}
+				c.Stat("driver.interactive_saves", 1)
+				qb, err := profile.ParseData(sess.FileBytes(body))
+				if err != nil {
+					return harness.Violation("interactive 'proto > b.pb.gz' wrote something unparseable: %v", err)
+				}
+				if len(p0.Mapping) == 0 {
+					for _, l := range qb.Location {
+						l.Mapping = nil
+					}
+				}
+				gb, _ := ref.SumView(qb)
+				if d := ref.DiffSum(want, gb); d != "" {
+					res.Verdict = harness.Violated
+					res.Detail = "interactive session [divide_by=2, proto > a, divide_by=1, proto > b]: the second save does not carry the samples of the input:\n" + d
+					return res
+				}
+			}
+		}
+	}
 	for _, f := range []string{"raw", "traces"} {
 		a, e1 := render(p, f)
 		b, e2 := render(q, f)
@@ -501,7 +533,7 @@ func init() {
 	harness.Register(&harness.Check{
 		ID:    "C01",
 		Level: "exploration",
-		Rule: "part gen: codec-class generator (sparse/huge/boundary ids, 0..4 sample types, 0..4 elements in every repeated field, extreme int64, empty/NUL/non-UTF8/long strings, partial units); part corpus: every repository testdata file that ParseData accepts (protobuf and legacy). part driver: codec-class profiles saved by the real driver with -proto: the reparsed output must carry the same values per (frames with every attribute incl. columns, labels) as the input (fake mapping for mapping-less profiles excepted), and -raw / -traces of it must equal the direct rendering. " +
+		Rule: "part gen: codec-class generator (sparse/huge/boundary ids, 0..4 sample types, 0..4 elements in every repeated field, extreme int64, empty/NUL/non-UTF8/long strings, partial units); part corpus: every repository testdata file that ParseData accepts (protobuf and legacy). part driver: codec-class profiles saved by the real driver with -proto: the reparsed output must carry the same values per (frames with every attribute incl. columns, labels) as the input (fake mapping for mapping-less profiles excepted), and -raw / -traces of it must equal the direct rendering; every tenth profile is also saved twice from one interactive session (first under divide_by=2, then with default options again) and the second save must carry the input's values. " +
 			"oracle per profile: independent wire decoder view == normalised in-memory view; ParseUncompressed/Parse/ParseData of the written bytes == original, also after the caller's input buffer has been overwritten; gunzip(Write)==WriteUncompressed; Parse of the compressed bytes through readers that deliver one byte / half of the request / data together with EOF; byte fixpoint from the first re-serialisation; Copy equal, pointer-disjoint, mutation-isolated; inputs unmodified; the same object changed in place (mapping cleared/set, line re-pointed, labels removed/replaced, header cleared) and serialized again must round-trip according to its new contents. " +
 			"non-trivial = has at least one sample, location or function; distinct = distinct table-size signature (or file)",
 		Assumptions: []string{"normalisation N: labels with empty string value, and numeric value 0 without unit, are unrepresentable in proto3 and dropped", "NumUnit is absent or as long as NumLabel (documented contract)"},
